@@ -352,22 +352,28 @@ Proof.
   - assert (M : mainf s4 = None).
     { unfold mainf, s4. cbn. apply L; [exact C4|exact Fa|].
       intros X. subst rest. cbn in E1. congruence. }
-    assert (H5 : DE c (prim f_create_trunc s4)).
-    { apply DE_create_trunc; [exact H4|exact M|]. unfold s4. cbn. rewrite G2. exact Hb. }
-    destruct H5 as [H5 H6].
-    split; [apply D_reopen; apply D_prim; [apply D_write_hdr|exact H5]
-           |apply E_reopen; apply E_prim; [apply E_write_hdr|exact H6]].
+    assert (DEa : forall ofl ab off, DE c (set_abort s4 ofl ab off)).
+    { intros. destruct H4 as [A B]. split; [eapply D_ext; [..|exact A]|eapply E_ext; [..|exact B]]; reflexivity. }
+    assert (G : forall ofl, DE c (log_reopen 0 (prim f_write_hdr (prim f_create_trunc
+                        (set_abort s4 ofl (aborted s4) (offered s4)))))).
+    { intros ofl.
+      assert (H5 : DE c (prim f_create_trunc (set_abort s4 ofl (aborted s4) (offered s4)))).
+      { apply DE_create_trunc; [apply DEa|exact M|]. unfold s4. cbn. rewrite G2. exact Hb. }
+      destruct H5 as [H5 H6].
+      split; [apply D_reopen; apply D_prim; [apply D_write_hdr|exact H5]
+             |apply E_reopen; apply E_prim; [apply E_write_hdr|exact H6]]. }
+    destruct (ofail s4) as [[|n]|]; [apply DEa|apply G|apply G].
 Qed.
 
 Lemma DE_vars c s t fi a fs cs : DE c s -> DE c (set_vars s t fi a fs cs).
 Proof. intros [A B]. split; [apply D_vars|apply E_vars]; assumption. Qed.
 
-Lemma DE_logger_log c szs s : DE c s -> DE c (logger_log c szs s).
+Lemma DE_set_abort c s ofl ab off : DE c s -> DE c (set_abort s ofl ab off).
+Proof. intros [A B]. split; [eapply D_ext; [..|exact A]|eapply E_ext; [..|exact B]]; reflexivity. Qed.
+
+Lemma DE_logger_rest c s1 : DE c s1 -> DE c (logger_rest c s1).
 Proof.
-  intros H. unfold logger_log.
-  set (s1 := match szs with [] => s | _ => prim (f_write_recs szs) s end).
-  assert (H1 : DE c s1).
-  { unfold s1. destruct szs; [exact H|]. destruct H. split; [apply D_prim; [apply D_write_recs|assumption]|apply E_prim; [apply E_write_recs|assumption]]. }
+  intros H1. unfold logger_rest.
   set (s2 := if flushP c <=? now s1 - flushStamp s1 then set_flushStamp (prim f_flush s1) (now s1) else s1).
   assert (H2 : DE c s2).
   { unfold s2. destruct (flushP c <=? now s1 - flushStamp s1); [|exact H1]. apply DE_vars.
@@ -376,13 +382,25 @@ Proof.
   destruct (cycleP c <=? now s2 - cycleStamp s2); [|exact H2]. apply DE_vars. apply DE_cycle. exact H2.
 Qed.
 
+Lemma DE_logger_log c szs s : DE c s -> DE c (logger_log c szs s).
+Proof.
+  intros H. unfold logger_log.
+  set (s0 := set_abort s (ofail s) (aborted s) (offered s + length szs)).
+  assert (H0 : DE c s0) by (apply DE_set_abort; exact H).
+  set (s1 := match szs with [] => s0 | _ => prim (f_write_recs szs) s0 end).
+  assert (H1 : DE c s1).
+  { unfold s1. destruct szs; [exact H0|]. destruct H0. split; [apply D_prim; [apply D_write_recs|assumption]|apply E_prim; [apply E_write_recs|assumption]]. }
+  destruct (aborted s1); [exact H1|apply DE_logger_rest; exact H1].
+Qed.
+
 Lemma DE_step c s o : DE c s -> DE c (step c s o).
 Proof.
-  intros H. destruct o; cbn [step].
+  intros H. unfold step. destruct (aborted s); [exact H|]. destruct o.
   - apply DE_vars, H.
   - apply DE_vars. apply DE_logger_log. destruct H. split; [apply D_prepare, D_reopen|apply E_prepare, E_reopen]; assumption.
   - destruct (active s); [apply DE_logger_log|]; exact H.
-  - destruct (active s); [|exact H]. apply DE_vars.
+  - destruct (active s); [|exact H]. cbv zeta.
+    destruct (aborted (logger_log c szs s)); [apply DE_logger_log, H|]. apply DE_vars.
     assert (G : DE c (if negb (Nat.eqb (keep c) 0) && reuse c then log_cycle c (fsize c) (logger_log c szs s) else logger_log c szs s)).
     { destruct (negb (Nat.eqb (keep c) 0) && reuse c); [apply DE_cycle|]; apply DE_logger_log, H. }
     destruct G. split; [apply D_log_close|apply E_log_close]; assumption.
@@ -505,15 +523,14 @@ Proof.
       apply andb_false_iff in G. destruct G as [G|G]; [left; apply Z.ltb_ge in G; lia|right; apply Z.ltb_ge in G; lia].
     - apply H1. rewrite <- H2, <- H3. exact X. }
   destruct (crashed s4); [exact H4|].
-  destruct (fault s4); unfold Th; rewrite ev_reopen; [exact H4|].
-  rewrite !ev_prim; auto using ev_write_hdr, ev_create_trunc.
+  destruct (fault s4); [unfold Th; rewrite ev_reopen; exact H4|].
+  destruct (ofail s4) as [[|n9]|]; [exact H4| |]; unfold Th; rewrite ev_reopen;
+    rewrite !ev_prim; auto using ev_write_hdr, ev_create_trunc.
 Qed.
 
-Lemma Th_logger_log c szs s : Th c s -> Th c (logger_log c szs s).
+Lemma Th_logger_rest c s1 : Th c s1 -> Th c (logger_rest c s1).
 Proof.
-  intros H. unfold logger_log.
-  set (s1 := match szs with [] => s | _ => prim (f_write_recs szs) s end).
-  assert (H1 : Th c s1). { unfold s1, Th. destruct szs; [exact H|]. rewrite ev_prim by apply ev_write_recs. exact H. }
+  intros H1. unfold logger_rest.
   set (s2 := if flushP c <=? now s1 - flushStamp s1 then set_flushStamp (prim f_flush s1) (now s1) else s1).
   assert (H2 : Th c s2).
   { unfold s2. destruct (flushP c <=? now s1 - flushStamp s1); [|exact H1]. unfold Th.
@@ -523,14 +540,25 @@ Proof.
   change (events (set_cycleStamp ?x _)) with (events x). apply Th_cycle. exact H2.
 Qed.
 
+Lemma Th_logger_log c szs s : Th c s -> Th c (logger_log c szs s).
+Proof.
+  intros H. unfold logger_log.
+  set (s0 := set_abort s (ofail s) (aborted s) (offered s + length szs)).
+  set (s1 := match szs with [] => s0 | _ => prim (f_write_recs szs) s0 end).
+  assert (H1 : Th c s1). { unfold s1, Th. destruct szs; [exact H|]. rewrite ev_prim by apply ev_write_recs. exact H. }
+  destruct (aborted s1); [exact H1|apply Th_logger_rest; exact H1].
+Qed.
+
 Lemma Th_step c s o : Th c s -> Th c (step c s o).
 Proof.
-  intros H. destruct o; cbn [step].
+  intros H. unfold step. destruct (aborted s); [exact H|]. destruct o.
   - exact H.
-  - unfold Th. change (events (set_active ?x _)) with (events x). apply Th_logger_log.
+  - unfold Th. cbv zeta. change (events (set_vars ?x _ _ _ _ _)) with (events x). apply Th_logger_log.
     unfold Th. rewrite ev_prepare, ev_reopen. exact H.
   - destruct (active s); [apply Th_logger_log|]; exact H.
-  - destruct (active s); [|exact H]. unfold Th. change (events (set_active ?x _)) with (events x).
+  - destruct (active s); [|exact H]. cbv zeta.
+    destruct (aborted (logger_log c szs s)); [apply Th_logger_log, H|].
+    unfold Th. change (events (set_active ?x _)) with (events x).
     rewrite ev_log_close.
     destruct (negb (Nat.eqb (keep c) 0) && reuse c); [apply Th_cycle|]; apply Th_logger_log, H.
 Qed.
@@ -555,18 +583,22 @@ Proof.
     assert (Pc : forall y, dropped (f_close y) = dropped y) by (intros; unfold f_close; destruct (hbuf y); reflexivity).
     assert (Po : forall y, dropped (f_open_append y) = dropped y) by (intros; unfold f_open_append; destruct (hbuf y); reflexivity).
     assert (LL : forall szs x, dropped (logger_log c szs x) = dropped x).
-    { intros szs x. unfold logger_log. rewrite K.
-      destruct (flushP c <=? _).
-      - change (dropped (set_flushStamp ?y _)) with (dropped y). rewrite P by exact Pf.
-        destruct szs; [reflexivity|apply P, Pw].
-      - destruct szs; [reflexivity|apply P, Pw]. }
+    { intros szs x. unfold logger_log. cbv zeta.
+      set (x0 := set_abort x (ofail x) (aborted x) (offered x + length szs)).
+      set (x1 := match szs with [] => x0 | _ :: _ => prim (f_write_recs szs) x0 end).
+      assert (W : dropped x1 = dropped x).
+      { unfold x1. destruct szs; [reflexivity|]. rewrite P by apply Pw. reflexivity. }
+      destruct (aborted x1); [exact W|]. unfold logger_rest. rewrite K.
+      destruct (flushP c <=? _); [|exact W].
+      change (dropped (set_flushStamp ?y _)) with (dropped y). rewrite P by exact Pf. exact W. }
     assert (LC : forall x, dropped (log_close x) = dropped x).
     { intros x. unfold log_close. rewrite !P; auto. }
-    destruct o; cbn [step].
+    unfold step. destruct (aborted s); [exact H|]. destruct o.
     - exact H.
-    - change (dropped (set_active ?y _)) with (dropped y). rewrite LL. unfold log_prepare, log_reopen. rewrite K. cbn [trials].
+    - cbv zeta. change (dropped (set_vars ?y _ _ _ _ _)) with (dropped y). rewrite LL. unfold log_prepare, log_reopen. rewrite K. cbn [trials].
       destruct (first _); rewrite ?P; auto; change (dropped (set_vars ?y _ _ _ _ _)) with (dropped y); rewrite LC; exact H.
     - destruct (active s); [rewrite LL|]; exact H.
-    - destruct (active s); [|exact H]. change (dropped (set_active ?y _)) with (dropped y). rewrite LC, K. cbn. rewrite LL. exact H. }
+    - destruct (active s); [|exact H]. cbv zeta. destruct (aborted (logger_log c szs s)); [rewrite LL; exact H|].
+      change (dropped (set_active ?y _)) with (dropped y). rewrite LC, K. cbn. rewrite LL. exact H. }
   apply G. reflexivity.
 Qed.
